@@ -190,6 +190,9 @@ fn run(cfg: &RunCfg, rep: &mut Report) {
 }
 
 fn describe_wal(b: &[u8]) -> Value {
+    if b.first() == Some(&b'X') {
+        return progx::wal_describe(b);
+    }
     if let Some((env, st, op)) = wal_decode_step(b) {
         return json!({"step": {"env": env, "state": rvm_json(&st), "op": format!("{op:?}")}});
     }
@@ -203,6 +206,9 @@ fn describe_wal(b: &[u8]) -> Value {
 }
 
 fn run_wal(b: &[u8]) {
+    if b.first() == Some(&b'X') {
+        return progx::wal_run(b);
+    }
     if let Some((envl, st, op)) = wal_decode_step(b) {
         if let Some(env) = envs().into_iter().find(|e| e.0 == envl) {
             let m = model(WORDS_QUICK, 1, 1, 1, env);
